@@ -92,6 +92,7 @@ func traversalComplete(c *eng.Ctx, rule, fnRef string, visitNames ...string) int
 
 func runC27Visit(c *eng.Ctx) {
 	p := c.P
+	defer runC27Scratch(c)
 	// ---- R5 traversal completeness ----
 	n := traversalComplete(c, "R5", "promql:preprocessExprHelper", "preprocessExprHelper")
 	c.Check("R5", "promql:preprocessExprHelper", "cases with sub-expression fields examined (≥ 7)", n >= 7, "", fmt.Sprint(n))
@@ -163,4 +164,50 @@ func containsNode(root, target ast.Node) bool {
 		return !found
 	})
 	return found
+}
+
+// C27.R7: scratch state of the EvalNodeHelper that is only meaningful within one step is reached through the
+// helper that resets it, so nothing computed at an earlier step leaks into this one.
+func runC27Scratch(c *eng.Ctx) {
+	p := c.P
+	H := "promql:EvalNodeHelper."
+	for fld, helper := range map[string]string{
+		"rightSigs": "resetRightSigs", "sigsPresent": "resetSigsPresent", "matchedSigs": "resetMatchedSigs", "matchedSigsPresent": "resetMatchedSigsPresent",
+	} {
+		var outside []string
+		n := 0
+		for _, o := range p.FindAll(p.FieldUse(H + fld)) {
+			n++
+			if eng.Short(o.In) != "EvalNodeHelper."+helper {
+				outside = append(outside, o.In+" at "+p.Pos(o.Node.Pos()))
+			}
+		}
+		for _, o := range p.FindAll(p.Store(H + fld)) {
+			if eng.Short(o.In) != "EvalNodeHelper."+helper {
+				outside = append(outside, o.In+" at "+p.Pos(o.Node.Pos()))
+			}
+		}
+		c.Check("R7", H+fld, "is touched only inside "+helper+", which clears it for the step", len(outside) == 0 && n >= 2, "", strings.Join(outside, "; "))
+	}
+	// the shared label builder: every function that builds labels with enh.lb resets it first
+	nFn := 0
+	seen := map[string]bool{}
+	for _, o := range p.FindAll(p.FieldUse(H + "lb")) {
+		if seen[o.In] || eng.Short(o.In) == "EvalNodeHelper.resetBuilder" {
+			continue
+		}
+		seen[o.In] = true
+		nFn++
+		f := c.Fn(o.In)
+		use := eng.Node("use of enh.lb", func(g *eng.Graph, n ast.Node) bool {
+			call, ok := n.(*ast.CallExpr)
+			if !ok {
+				return false
+			}
+			se, ok := call.Fun.(*ast.SelectorExpr)
+			return ok && nodeText(se.X) == "enh.lb"
+		})
+		f.Dom("R7", p.Call(H+"resetBuilder"), use)
+	}
+	c.Check("R7", "promql", "functions building labels with the shared builder (≥ 3)", nFn >= 3, "", fmt.Sprint(nFn))
 }
